@@ -220,3 +220,28 @@ CHECKS["C20"] = dict(
     min_outcomes=1000,
     require_counts=dict(any=dict(states=10000, transitions=40000)),
 )
+
+CHECKS["C13"] = dict(
+    level="model_checking", engine="E4",
+    technique="stateless model checking of the real per-thread kernel body: every execution order of the launch's threads is enumerated for launches of up to 6 (quick) / 8 (thorough) threads "
+              "(plus every order with one duplicated thread), each on a fresh poisoned output; for larger launches a MEASURED independence relation (per-thread write footprint = exactly its own "
+              "cell, no read of the output, inputs read-only) reduces all T! orders to one Mazurkiewicz trace, of which four representatives are executed; a separate free-running pass runs the same "
+              "bodies on real threads under ThreadSanitizer",
+    level_note="trusted: host evaluation (na::eval of the same view) as the oracle, page protection of the simulated device memory, g++ 12 (+ASan/UBSan and TSan builds). Not covered: the CUDA/HIP/SYCL/OpenCL "
+               "entry glue, buffer transfers and launch-size arithmetic (toolchains absent); weak memory orderings of real GPUs (each thread performs a single final store to a distinct cell, measured).",
+    level_text="For 14 device-supported view programs of depth 1..3 (broadcasting binary ufuncs, unary ufuncs, reduce(axis), transpose, reshape, flatten, broadcast_to and their compositions, incl. a leaf used "
+               "twice) over operand shapes S(1..3,3) (thorough S(1..4,3)) and every launch geometry block in {1,2,3,4,5,7,8,16,32,33} (thorough 1..33) x grid from exactly covering to 2x over-provisioned, the "
+               "real kernel body (create_mutable_array / create_array from raw triples / functional::apply of the extracted composition / assign_result) is executed once per thread under the schedule explorer; "
+               "the final output must equal host evaluation and threads with id >= output size must write nothing.",
+    units=[U("kernel", "harness/c13_kernel.cpp", weight=6),
+           U("kernel_san", "harness/c13_kernel.cpp", flags=["-DC13_THIN"], san=True, family="kernel", shadow=True, weight=6, run_tier="quick"),
+           U("kernel_tsan", "harness/c13_kernel.cpp", flags=["-DC13_TSAN"], tsan=True, libs=["-lpthread"], family="kernel", shadow=True, weight=4, run_tier="quick", env={"TSAN_OPTIONS": "halt_on_error=1:die_after_fork=0"})],
+    rule="case = (program, operand shapes, reduction axis, block, grid); inside a case: 2 footprint runs per thread + all T! orders (+ duplicated-thread orders) or 4 representative orders; "
+         "states = distinct output-buffer contents observed after a thread step, transitions = thread steps executed under the schedule explorer; non-trivial = output has > 1 element and the launch has > 1 thread; distinct = distinct case key",
+    bounds=dict(quick="shapes S(1..3,3); 10 block sizes; all orders for T<=6, duplicates for T<=5", thorough="shapes S(1..4,3); block 1..33; all orders for T<=8, duplicates for T<=6"),
+    assumptions=["thread bodies are taken as atomic steps: justified per launch by the measured footprints (single store to the thread's own cell, value independent of the output's previous contents, inputs on read-only pages)",
+                 "host evaluation is the reference (its agreement with NumPy semantics is the business of C03-C08)"],
+    min_outcomes=500,
+    require_counts=dict(any=dict(schedules=100000, transitions=500000, geometries_all_orders=100, idle_threads=1000)),
+    deadline=dict(quick=540, thorough=3300),
+)
